@@ -16,6 +16,7 @@ type Conn struct {
 	connection       net.Conn
 	closed           atomic.Bool
 	handshakeContext func(ctx context.Context) error
+	handshakeDone    atomic.Bool
 	lock             sync.Mutex
 }
 
@@ -58,18 +59,34 @@ func (c *Conn) Close() error {
 }
 
 func (c *Conn) handshake(ctx context.Context) error {
-	if c.handshakeContext != nil {
+	if c.handshakeContext == nil || c.handshakeDone.Load() {
+		return nil
+	}
+	// The handshake of the underlying connection serializes its callers with a lock that knows
+	// nothing about contexts. While another goroutine - typically the read loop, whose context
+	// ends only with the connection - is in the middle of a handshake the peer does not answer,
+	// a direct call would stay blocked long after ctx has ended. Wait for it only as long as ctx allows.
+	res := make(chan error, 1)
+	go func() {
 		err := c.handshakeContext(ctx)
 		if err == nil {
-			return nil
+			c.handshakeDone.Store(true)
+			res <- nil
+			return
 		}
 		errC := c.Close()
 		if errC == nil {
-			return err
+			res <- err
+			return
 		}
-		return fmt.Errorf("%v", []error{err, errC})
+		res <- fmt.Errorf("%v", []error{err, errC})
+	}()
+	select {
+	case err := <-res:
+		return err
+	case <-ctx.Done():
+		return ctx.Err()
 	}
-	return nil
 }
 
 // WriteWithContext writes data with context.
